@@ -372,6 +372,9 @@ func (t *loopTr) call(x *ast.CallExpr) (string, lkind) {
 	if h, ok := t.hoisted[x]; ok {
 		return h.name, h.kind
 	}
+	if v, k, ok := t.bigCall(x); ok {
+		return v, k // stage 10 (loops_big.go)
+	}
 	ftv := t.typeOf(x.Fun)
 	if ftv.IsType() { // conversion
 		if len(x.Args) != 1 {
